@@ -25,7 +25,6 @@ import (
 	"fmt"
 	"os"
 	"path/filepath"
-	"sort"
 	"strings"
 	"sync"
 	"time"
@@ -166,6 +165,7 @@ type runner struct {
 	ctx      context.Context
 	env      *scen.Env
 	resolver graph.CheckResolver
+	fellBack bool // set by list: the last pipeline call was served by the classic reverse expansion
 }
 
 func engineOpts(engine int, rq Req, limit uint32) []commands.ListObjectsQueryOption {
@@ -201,7 +201,10 @@ func (r *runner) list(rq Req, engine, mode int, limit uint32) (int, []string) {
 	}
 	ch := make(chan res, 1)
 	go func() {
-		ec, objs := r.list1(rq, engine, mode, limit)
+		ec, objs, fellBack := r.list1(rq, engine, mode, limit)
+		if fellBack {
+			r.fellBack = true
+		}
 		ch <- res{ec, objs}
 	}()
 	select {
@@ -215,8 +218,9 @@ func (r *runner) list(rq Req, engine, mode int, limit uint32) (int, []string) {
 	}
 }
 
-// list1 runs one real ListObjects call; mode 0 = Execute, 1 = ExecuteStreamed.
-func (r *runner) list1(rq Req, engine, mode int, limit uint32) (int, []string) {
+// list1 runs one real ListObjects call; mode 0 = Execute, 1 = ExecuteStreamed.  fellBack: the
+// pipeline was requested but the call went through evaluate (classic reverse expansion).
+func (r *runner) list1(rq Req, engine, mode int, limit uint32) (int, []string, bool) {
 	q, err := commands.NewListObjectsQuery(r.env.DS, r.resolver, r.env.StoreID, engineOpts(engine, rq, limit)...)
 	if err != nil {
 		panic(err)
@@ -224,6 +228,7 @@ func (r *runner) list1(rq Req, engine, mode int, limit uint32) (int, []string) {
 	ctx := typesystem.ContextWithTypesystem(r.ctx, r.env.TS)
 	start := time.Now()
 	var objs []string
+	fellBack := false
 	if mode == 0 {
 		var res *commands.ListObjectsResponse
 		res, err = q.Execute(ctx, &openfgav1.ListObjectsRequest{
@@ -232,16 +237,21 @@ func (r *runner) list1(rq Req, engine, mode int, limit uint32) (int, []string) {
 		})
 		if res != nil {
 			objs = res.Objects
+			fellBack = engine == engPipeline && !res.ResolutionMetadata.WasWeightedGraphUsed.Load()
 		}
 	} else {
 		srv := &streamSrv{ctx: ctx}
-		_, err = q.ExecuteStreamed(ctx, &openfgav1.StreamedListObjectsRequest{
+		var md *commands.ListObjectsResolutionMetadata
+		md, err = q.ExecuteStreamed(ctx, &openfgav1.StreamedListObjectsRequest{
 			StoreId: r.env.StoreID, AuthorizationModelId: r.env.Model.GetId(),
 			Type: rq.Type, Relation: rq.Rel, User: rq.User, Context: scen.Struct(r.env.S.ReqCtx),
 		}, srv)
 		srv.mu.Lock()
 		objs = append([]string{}, srv.objs...)
 		srv.mu.Unlock()
+		if md != nil {
+			fellBack = engine == engPipeline && !md.WasWeightedGraphUsed.Load()
+		}
 	}
 	ec := classifyErr(err)
 	if ec == errOther && os.Getenv("C05_DEBUG") != "" {
@@ -250,7 +260,7 @@ func (r *runner) list1(rq Req, engine, mode int, limit uint32) (int, []string) {
 	if ec == errNone && time.Since(start) > deadline*9/10 {
 		ec = errSlow // the deadline may have truncated the result silently
 	}
-	return ec, objs
+	return ec, objs, fellBack
 }
 
 type candidate struct {
@@ -399,7 +409,7 @@ func runScenario(ctx context.Context, w *rec.Writer, r *rec.Rand, sq storage.Ope
 
 	resolver, closer := scen.Resolver(scen.NewForcedPlanner("default"), maxDepth)
 	defer closer()
-	runners := []*runner{{ctx, envM, resolver}, {ctx, envS, resolver}}
+	runners := []*runner{{ctx: ctx, env: envM, resolver: resolver}, {ctx: ctx, env: envS, resolver: resolver}}
 
 	var subjects []string
 	if reqs == nil {
@@ -435,6 +445,11 @@ func runScenario(ctx context.Context, w *rec.Writer, r *rec.Rand, sq storage.Ope
 		}
 		var runs, streams []rec.V
 		emit := func(b, engine, mode int, limit uint32, ec int, objs []string) {
+			if engine == engPipeline && runners[b].fellBack {
+				engine = engClassic // effective engine
+				w.Stat("calls_pipeline_fell_back_to_classic", 1)
+			}
+			runners[b].fellBack = false
 			ids := make([]rec.V, 0, len(objs))
 			for _, o := range objs {
 				t, id := scen.SplitObj(o)
@@ -452,10 +467,7 @@ func runScenario(ctx context.Context, w *rec.Writer, r *rec.Rand, sq storage.Ope
 			w.Stat("calls_"+engNames[engine]+"_"+errNames[ec], 1)
 		}
 		for b, rn := range runners {
-			tb := time.Now()
-			defer func(b int) { _ = b }(b)
 			for engine := engClassic; engine <= engPipeline; engine++ {
-				te := time.Now()
 				ec0, objs0 := rn.list(rq, engine, 0, 0)
 				emit(b, engine, 0, 0, ec0, objs0)
 				if ec0 == errHang {
@@ -486,10 +498,7 @@ func runScenario(ctx context.Context, w *rec.Writer, r *rec.Rand, sq storage.Ope
 					emit(b, engine, 0, l, ec, objs)
 					w.Stat("calls_limited", 1)
 				}
-				w.Stat(fmt.Sprintf("us_backend%d_%s", b, engNames[engine]), int(time.Since(te).Microseconds()))
 			}
-			ts := time.Now()
-			defer func() { w.Stat(fmt.Sprintf("us_backend%d_streams", b), int(time.Since(ts).Microseconds())); _ = tb }()
 			for wi, weighted := range []bool{false, true} {
 				ec, cs := rn.stream(rq, weighted)
 				var cvs []rec.V
@@ -528,10 +537,19 @@ func runScenario(ctx context.Context, w *rec.Writer, r *rec.Rand, sq storage.Ope
 	w.Case(desc, rec.I(1), model, conds, rec.L(tvs...), atoms, rec.I(maxDepth), rec.L(rvs...))
 }
 
-// f7Witness is the witness of finding F7 (DESIGN.md section 8), always run first.
-func f7Witness() (*scen.Scenario, []Req) {
-	s := &scen.Scenario{Shape: "f7-witness", Types: []scen.TypeDef{
-		{Name: "user"},
+type witness struct {
+	s    *scen.Scenario
+	reqs []Req
+}
+
+// witnesses are the concrete inputs of the findings listed in checks/C05.findings.json; they are
+// run first on every (non-replay) run, so each KNOWN flag is confirmed on the real code every time.
+func witnesses() []witness {
+	user := scen.TypeDef{Name: "user"}
+	dflt := func(u, t, r string) Req { return Req{User: u, Type: t, Rel: r, Chunk: 100, Procs: 3, Buf: 128} }
+	var out []witness
+	// F7 rswu_userset_leak (DESIGN.md section 8)
+	out = append(out, witness{&scen.Scenario{Shape: "witness-rswu_userset_leak", Types: []scen.TypeDef{user,
 		{Name: "group", Rels: []scen.RelDef{{Name: "member", RW: scen.This(), Restr: []scen.Restr{scen.RObj("user")}}}},
 		{Name: "doc", Rels: []scen.RelDef{{Name: "viewer", RW: scen.This(),
 			Restr: []scen.Restr{scen.RObj("user"), scen.RObj("group"), scen.RSet("group", "member")}}}},
@@ -539,9 +557,34 @@ func f7Witness() (*scen.Scenario, []Req) {
 		{Obj: "doc:1", Rel: "viewer", User: "group:1"},
 		{Obj: "doc:2", Rel: "viewer", User: "group:1#member"},
 		{Obj: "group:1", Rel: "member", User: "user:a"},
-	}}
-	return s, []Req{{User: "group:1", Type: "doc", Rel: "viewer", Chunk: 100, Procs: 3, Buf: 128},
-		{User: "user:a", Type: "doc", Rel: "viewer", Chunk: 1, Procs: 1, Buf: 1}}
+	}}, []Req{dflt("group:1", "doc", "viewer"), {User: "user:a", Type: "doc", Rel: "viewer", Chunk: 1, Procs: 1, Buf: 1}}})
+	// limit0_error_swallowed: doc:1's condition cannot be evaluated, doc:2 is permitted
+	out = append(out, witness{&scen.Scenario{Shape: "witness-limit0_error_swallowed", Conds: []string{"c1"}, Types: []scen.TypeDef{user,
+		{Name: "group", Rels: []scen.RelDef{{Name: "member", RW: scen.This(), Restr: []scen.Restr{scen.RObj("user")}}}},
+		{Name: "doc", Rels: []scen.RelDef{{Name: "viewer", RW: scen.This(),
+			Restr: []scen.Restr{scen.RObj("user").With("c1"), scen.RSet("group", "member")}}}},
+	}, Tuples: []scen.Tuple{
+		{Obj: "doc:1", Rel: "viewer", User: "user:a", Cond: "c1"},
+		{Obj: "doc:2", Rel: "viewer", User: "group:1#member"},
+		{Obj: "group:1", Rel: "member", User: "user:a"},
+	}}, []Req{dflt("user:a", "doc", "viewer")}})
+	// weighted_degenerate_rewrite: editor: [user] and [user]
+	out = append(out, witness{&scen.Scenario{Shape: "witness-weighted_degenerate_rewrite", Types: []scen.TypeDef{user,
+		{Name: "doc", Rels: []scen.RelDef{{Name: "editor", RW: scen.Inter(scen.This(), scen.This()), Restr: []scen.Restr{scen.RObj("user")}}}},
+	}, Tuples: []scen.Tuple{{Obj: "doc:1", Rel: "editor", User: "user:a"}}},
+		[]Req{dflt("user:a", "doc", "editor")}})
+	// pipeline_strict_condition_filter: user:* with c1 is accepted by ValidateTupleForRead because
+	// `user with c1` carries c1 (F4); Check and the other engines use the tuple, the pipeline does not
+	out = append(out, witness{&scen.Scenario{Shape: "witness-pipeline_strict_condition_filter", Conds: []string{"c1"},
+		ReqCtx: map[string]any{"x": 1}, Types: []scen.TypeDef{user,
+			{Name: "group", Rels: []scen.RelDef{{Name: "member", RW: scen.This(),
+				Restr: []scen.Restr{scen.RObj("user").With("c1"), scen.RWild("user")}}}},
+			{Name: "doc", Rels: []scen.RelDef{{Name: "editor", RW: scen.This(), Restr: []scen.Restr{scen.RSet("group", "member")}}}},
+		}, Tuples: []scen.Tuple{
+			{Obj: "group:3", Rel: "member", User: "user:*", Cond: "c1", Ctx: map[string]any{"x": 1}},
+			{Obj: "doc:2", Rel: "editor", User: "group:3#member"},
+		}}, []Req{dflt("user:a", "doc", "editor")}})
+	return out
 }
 
 func main() {
@@ -592,13 +635,13 @@ func main() {
 		}
 		return
 	}
-	ws, wr := f7Witness()
-	runScenario(ctx, w, rec.NewRand(1), sq, ws, wr, true)
+	for _, wt := range witnesses() {
+		runScenario(ctx, w, rec.NewRand(1), sq, wt.s, wt.reqs, true)
+	}
 	r := rec.NewRand(o.Seed)
 	for i := 0; i < o.N; i++ {
 		rr := r.Fork()
 		s := scen.Generate(rr, scen.DefaultOpts())
 		runScenario(ctx, w, rr, sq, s, nil, full)
 	}
-	_ = sort.Strings
 }
